@@ -47,7 +47,8 @@ class Contract:
                  returns=None, invariants=None, bv=None, by_contract=False, props=(),
                  setup=None, modifies=None, call_requires=None, result_maker=None, args=None,
                  timeout_ms=None, max_paths=None, method_of=None, build=None, fuel=None, note="",
-                 gen=None, nl_uf=False, tiers=("quick", "thorough"), returns_expr=None):
+                 gen=None, nl_uf=False, tiers=("quick", "thorough"), returns_expr=None, group_axioms=False):
+        self.group_axioms = group_axioms          # add the commutative-monoid axioms of the abstract point group (C03.4)
         self.returns_expr = returns_expr          # call sites use this spec term as the result (must be one of the ensures)
         self.tiers = tuple(tiers)                 # tiers in which the deductive job runs (bounded companion: always)
         self.nl_uf = nl_uf                        # symbolic*symbolic products as an uninterpreted function (zn_ring reads them)
@@ -320,6 +321,9 @@ def verify_contract(c, reg=REG, timeout_ms=10000, max_paths=None):
     results = []
     t_start = time.time()
     axioms = list(reg.axioms)
+    if getattr(c, "group_axioms", False):
+        from . import fieldmode as _fm
+        axioms += _fm.group_axioms()
     if getattr(c, "nl_uf", False) and getattr(c, "nl_comm_axiom", False):
         # (products are built AC-canonically by ops.nl_mul, so the quantified axiom is normally not needed)
         from .ops import NLMUL
